@@ -105,6 +105,8 @@ type scen struct {
 	startSeq              map[int]int64
 	chain                 []int32
 	lean                  bool // keep the harness's own work per call / per task minimal (tight races)
+	objs                  map[int]*taskObj
+	sharePer              int // > 0: submitter g uses one task object for its submissions g*sharePer ...
 	after                 func(t int)
 	nholds                int32
 	holds                 map[int]*hold // goroutine id -> where it is to be held
@@ -121,7 +123,7 @@ func newScen(nw, capacity int, kinds func(int) (int, bool)) *scen {
 	}
 	s := &scen{ex: ex.(*sched.ThreadPoolExecutor),
 		endSeq: map[int]int64{}, runs: map[int]int{}, gates: map[int]chan struct{}{}, kinds: kinds, workers: map[int]bool{},
-		holds: map[int]*hold{}, callHold: map[int]*hold{}, startSeq: map[int]int64{}}
+		holds: map[int]*hold{}, callHold: map[int]*hold{}, startSeq: map[int]int64{}, objs: map[int]*taskObj{}}
 	scens.Store(s.ex, s)
 	return s
 }
@@ -177,7 +179,36 @@ func (s *scen) task(t int) sched.Runnable {
 	} else if outcome == 5 {
 		return sched.NewTask(nil) // the library's own task without an action: Run() returns nil
 	}
-	return sched.NewTask(func() error {
+	// outcome 11: the SAME *sched.Task object as the previous submission is submitted again (a
+	// recurring job): every submission counts, each run of the object serves the oldest submission
+	// of it that has not been served yet
+	if outcome, _ := s.kinds(t); outcome == 11 || s.shareWith(t) >= 0 {
+		prev := t - 1
+		if outcome != 11 {
+			prev = s.shareWith(t)
+		}
+		s.mu.Lock()
+		o := s.objs[prev]
+		if o != nil {
+			o.ids = append(o.ids, t)
+			s.objs[t] = o
+		}
+		s.mu.Unlock()
+		if o != nil {
+			return o.task
+		}
+	}
+	o := &taskObj{ids: []int{t}}
+	s.mu.Lock()
+	s.objs[t] = o
+	s.mu.Unlock()
+	o.task = sched.NewTask(func() error {
+		s.mu.Lock()
+		t := o.ids[0] // the submission this run serves
+		if len(o.ids) > 1 {
+			o.ids = o.ids[1:]
+		}
+		s.mu.Unlock()
 		outcome, gated := s.kinds(t)
 		n := atomic.AddInt64(&s.inflight, 1)
 		for {
@@ -223,9 +254,47 @@ func (s *scen) task(t int) sched.Runnable {
 			return errTask
 		case 2:
 			panic("task panics")
+		case 6: // error values of several concrete types
+			return fmt.Errorf("wrapped: %w", errTask)
+		case 7:
+			return structErr{"struct", t}
+		case 8:
+			return &ptrErr{t}
+		case 9:
+			return (*ptrErr)(nil) // a typed nil: a non-nil error value whose Error() works on nil
 		}
 		return nil
 	})
+	return o.task
+}
+
+type taskObj struct {
+	task sched.Runnable
+	ids  []int
+}
+
+type structErr struct {
+	s string
+	n int
+}
+
+func (e structErr) Error() string { return e.s }
+
+type ptrErr struct{ n int }
+
+func (e *ptrErr) Error() string {
+	if e == nil {
+		return "nil ptrErr"
+	}
+	return "ptrErr"
+}
+
+// shareWith: in concurrent scenarios a submitter may use ONE task object for all its submissions
+func (s *scen) shareWith(t int) int {
+	if s.sharePer <= 0 || t%s.sharePer == 0 {
+		return -1
+	}
+	return t - 1
 }
 
 // execute runs Execute(task t) on the calling goroutine and records how it ended.
@@ -525,6 +594,9 @@ func runConc(in Sx) Sx {
 	spin := mode == 1
 	if mode == 1 {
 		s.work = 3
+	}
+	if mode == 0 && in.At(5).Uint64()%2 == 1 && per > 1 {
+		s.sharePer = per // every submitter re-submits one and the same task object
 	}
 	if mode == 4 {
 		s.work = 2
@@ -963,7 +1035,7 @@ type withSlice struct {
 }
 
 var shapeNames = []string{"string", "error", "runtime.Error", "int", "nil", "slice", "map", "func", "struct with slice", "pointer", "slice-typed error",
-	"nil Runnable", "typed-nil Runnable"}
+	"nil Runnable", "typed-nil Runnable", "errors of several concrete types"}
 
 func panicWith(shape int) {
 	switch shape {
@@ -1002,6 +1074,9 @@ func childMain(spec string) {
 		i := i
 		var r sched.Runnable = sched.NewTask(func() error {
 			atomic.AddInt32(&runs[i], 1)
+			if shape == 13 { // every task fails, each with an error of another concrete type
+				return []error{errTask, fmt.Errorf("wrapped: %w", errTask), structErr{"s", i}, &ptrErr{i}, (*ptrErr)(nil)}[i]
+			}
 			if i == 1 || i == 3 {
 				panicWith(shape)
 			}
@@ -1015,7 +1090,7 @@ func childMain(spec string) {
 		Catch(func() { e.Execute(r) })
 	}
 	want := int32(5)
-	if shape >= 11 {
+	if shape == 11 || shape == 12 {
 		want = 3
 	}
 	for dl := time.Now().Add(3 * time.Second); time.Now().Before(dl); time.Sleep(time.Millisecond) {
@@ -1065,7 +1140,7 @@ func runPanicShape(in Sx) Sx {
 		if n, _ := fmt.Sscanf(outb.String()[i:], "RESULT %d %d %d %d %d %d", &r[0], &r[1], &r[2], &r[3], &r[4], &ret); n == 6 {
 			st = []int{1, 1, 1, 1, 1}
 			runs = r[:]
-			if shape >= 11 { // nil Runnables have no body that could count its runs
+			if shape == 11 || shape == 12 { // nil Runnables have no body that could count its runs
 				st[1], st[3] = 5, 5
 			}
 		}
@@ -1544,6 +1619,10 @@ func genScript(rng *Rng, directed int) Sx {
 		case k < 6 || len(gatedOpen) == 0:
 			if rng.Chance(1, 8) {
 				addExec(rng.PickInt(3, 4, 5), false) // a nil / typed-nil Runnable, a Task without an action
+			} else if rng.Chance(1, 6) && nexec > 0 {
+				addExec(11, false) // the same Task object as the previous submission, submitted again
+			} else if rng.Chance(1, 5) {
+				addExec(rng.PickInt(6, 7, 8, 9), rng.Chance(1, 4)) // error values of other concrete types
 			} else {
 				addExec(rng.PickInt(0, 0, 0, 1, 2), rng.Chance(2, 5))
 			}
